@@ -51,7 +51,7 @@ Definition spec_step (s : fspec) (o : hop) : fspec * hres :=
     else ({| sp_data := sp_data s; sp_pos := Z.to_N t; sp_fl := sp_fl s |}, ROff t)
   | HWrite d =>
     if negb (fl_write (sp_fl s)) then (s, RErr) else
-    let at_ := if fl_append (sp_fl s) then len else sp_pos s in
+    let at_ := if fl_append (sp_fl s) && (0 <? clen d) then len else sp_pos s in
     ({| sp_data := cwrite (sp_data s) at_ d; sp_pos := at_ + clen d; sp_fl := sp_fl s |}, RN (clen d))
   | HWriteAt d off =>
     if negb (fl_write (sp_fl s)) || (off <? 0)%Z then (s, RErr) else
@@ -84,8 +84,7 @@ Definition enter_write (h : hstate) : hstate :=
   | None =>
     let pos := match hs_rpos h with Some k => if fl_trunc (hs_fl h) then 0 else k | None => 0 end in
     let b0 := if fl_trunc (hs_fl h) then [] else hs_tape h in
-    let cur := if fl_append (hs_fl h) then clen b0 else pos in
-    {| hs_tape := hs_tape h; hs_isize := hs_isize h; hs_rpos := None; hs_buf := Some (b0, cur); hs_fl := hs_fl h |}
+    {| hs_tape := hs_tape h; hs_isize := hs_isize h; hs_rpos := None; hs_buf := Some (b0, pos); hs_fl := hs_fl h |}
   end.
 
 Definition set_buf (h : hstate) (b : content) (cur : N) : hstate :=
@@ -126,6 +125,10 @@ Definition h_write_at_cursor (h : hstate) (d : content) : hstate * hres :=
   | None => (h, RErr)
   end.
 
+(* File.Write with O_APPEND: every write goes to the end, wherever the cursor was moved to *)
+Definition to_end_if_append (h : hstate) (d : content) : hstate :=
+  if fl_append (hs_fl h) && (0 <? clen d) then match hs_buf h with Some (b, _) => set_buf h b (clen b) | None => h end else h.
+
 Definition hstep (h : hstate) (o : hop) : hstate * hres :=
   match o with
   | HRead n => h_read h n
@@ -136,7 +139,7 @@ Definition hstep (h : hstate) (o : hop) : hstate * hres :=
     | (h', _) => (h', RErr)
     end
   | HSeek off w => h_seek h off w
-  | HWrite d => if negb (fl_write (hs_fl h)) then (h, RErr) else h_write_at_cursor (enter_write h) d
+  | HWrite d => if negb (fl_write (hs_fl h)) then (h, RErr) else h_write_at_cursor (to_end_if_append (enter_write h) d) d
   | HWriteAt d off =>
     if negb (fl_write (hs_fl h)) then (h, RErr) else
     match h_seek (enter_write h) off 0 with
